@@ -43,6 +43,24 @@ Theorem C02_conformant_valid_partial : forall cap ops clock s log,
 Proof. exact valid_after_free. Qed.
 Print Assumptions C02_conformant_valid_partial.
 
+(* what a positive answer of the decider means for a file: it IS the header followed by the encodings of
+   well-formed events (exact tiling) with sorted clocks and well-paired flush markers *)
+Theorem C02_valid_stream_meaning : forall bs,
+  Forall byte bs -> valid_stream bs = true ->
+  exists es, bs = STREAM_HEADER ++ flat_map encode es /\ Forall wf_uev es /\
+             sortedb (map u_clock es) = true /\ flush_okb es = true.
+Proof. exact valid_stream_meaning. Qed.
+Print Assumptions C02_valid_stream_meaning.
+
+(* every conformant program completes in the model (5 clock values per call suffice), so the
+   hypothesis `run ... = ROk` above is satisfiable by all of them *)
+Theorem C02_conformant_programs_complete : forall fx cap ops clock,
+  64 <= cap -> forallb op_wfb ops = true -> existsb is_free ops = false -> forallb (api_okb cap) ops = true ->
+  (5 * length ops + 5 <= length clock)%nat ->
+  exists s log, run fx cap (ops ++ [Flush; Free]) clock = ROk (s, log).
+Proof. exact run_total_free. Qed.
+Print Assumptions C02_conformant_programs_complete.
+
 (* the model's out-of-fuel answer cannot make the above vacuous *)
 Theorem C02_never_out_of_fuel : forall fx cap ops clock,
   64 <= cap -> forallb op_wfb ops = true -> run fx cap ops clock <> RNoFuel.
